@@ -183,6 +183,8 @@ def gen(rng, tier):
     cases = []
     for _ in range(120 if tier == "quick" else 1500):
         cases.append(dict(line=arbgen.gen_replaced_contest(rng, ("ing", "vs", "ts", "pt")), tags=["replaced-object"]))
+    for _ in range(120 if tier == "quick" else 1500):
+        cases.append(dict(line=arbgen.gen_replaced_attached(rng), tags=["replaced-attached-object"]))
     for _ in range(150 if tier == "quick" else 1500):
         cases.append(dict(line=gen_validity_flip(rng), tags=["validity-flip"]))
     for _ in range(200 if tier == "quick" else 2000):
